@@ -134,16 +134,18 @@ theorem C11_roundtrip_store (cfg : Cfg) (led : Ledger) (c k : Bytes) (flag expti
 
 /-! ### binary-safe transfer, end to end -/
 
+/-- (`hflag`: a client flag without the server-reserved bit 0x10000 — a set carrying that bit is refused, NOT_STORED) -/
 theorem C11_set_then_get_same_bytes (cfg : Cfg) (hcv : cfg.store.checkVHash = false) (hmk : cfg.maxKeyLen = 250)
     (K : Spec.Key → Prop) (hInj : StoreLemmas.InjOn hashOf K) (n : Nat) (hn : n + 1 < 2147483647)
     (st : St) (m : Spec.KV) (hb : Backed K n st m)
     (k body : Bytes) (flag : Int) (nr : Bool) (buf : Buf)
-    (hk : K k) (hv : validKeyString k = true) (hlen : body.length < 2^63) :
+    (hk : K k) (hv : validKeyString k = true) (hlen : body.length < 2^63)
+    (hflag : ((flag % 4294967296).toNat / 65536) % 2 ≠ 1) :
     let rset : Req := { cmd := ascii "set", keys := [k], flag := flag, exptime := 0, body := body, noreply := nr }
     let rget : Req := { cmd := ascii "get", keys := [k] }
     (processGet cfg (processStore cfg st rset buf).1 rget).2.1
       = some (.value false [{ key := k, flag := ((flag % 4294967296).toNat : Int), body := [.lit body], len := body.length }]) :=
-  set_then_get cfg hcv hmk K hInj n hn st m hb k body flag nr buf hk hv hlen
+  set_then_get cfg hcv hmk K hInj n hn st m hb k body flag nr buf hk hv hlen hflag
 
 /-- on a fresh server, for the single key involved, the hypotheses hold -/
 theorem C11_fresh_server_backed (k : Bytes) : Backed (fun x => x = k) 0 ({} : St) [] ∧ StoreLemmas.InjOn hashOf (fun x => x = k) :=
